@@ -18,7 +18,7 @@ _USE_PATTERN_MATCHING = (sys.version_info >= (3, 10))
 
 
 class PyRTLProcess(BaseProcess):
-    __slots__ = ("is_comb", "runnable", "critical", "run")
+    __slots__ = ("is_comb", "runnable", "critical", "clocked", "run")
 
     def __init__(self, *, is_comb):
         self.is_comb  = is_comb
@@ -28,6 +28,9 @@ class PyRTLProcess(BaseProcess):
     def reset(self):
         self.runnable = self.is_comb
         self.critical = False
+        # Set when the process was woken up by the active edge of its clock (as opposed to
+        # the assertion of an asynchronous reset).
+        self.clocked  = False
 
 
 class _PythonEmitter:
@@ -458,10 +461,12 @@ def comb_waker(process):
     return waker
 
 
-def edge_waker(process, polarity):
+def edge_waker(process, polarity, *, is_clock=False):
     def waker(curr, next):
         if next == polarity:
             process.runnable = True
+            if is_clock:
+                process.clocked = True
         return True
     return waker
 
@@ -537,15 +542,28 @@ class _FragmentCompiler:
             else:
                 domain = fragment.domains[domain_name]
                 clk_polarity = 1 if domain.clk_edge == "pos" else 0
-                self.state.add_signal_waker(domain.clk, edge_waker(domain_process, clk_polarity))
-                if domain.async_reset and domain.rst is not None:
+                self.state.add_signal_waker(domain.clk,
+                    edge_waker(domain_process, clk_polarity, is_clock=True))
+                # A process of a domain with an asynchronous reset is also woken up when the reset
+                # is asserted; in that case only the reset is applied, and the statements (and
+                # memory ports) of the domain, which are clocked, must not run.
+                async_reset = domain.async_reset and domain.rst is not None
+                if async_reset:
                     self.state.add_signal_waker(domain.rst, edge_waker(domain_process, 1))
 
                 for (signal, _) in lhs_masks.masks():
                     signal_index = self.state.get_signal(signal)
                     emitter.append(f"next_{signal_index} = slots[{signal_index}].next")
 
-                _StatementCompiler(self.state, emitter)(domain_stmts)
+                if async_reset:
+                    emitter.append("clocked = process.clocked")
+                    emitter.append("process.clocked = False")
+                    emitter.append("if clocked:")
+                    with emitter.indent():
+                        emitter.append("pass")
+                        _StatementCompiler(self.state, emitter)(domain_stmts)
+                else:
+                    _StatementCompiler(self.state, emitter)(domain_stmts)
 
                 if domain.rst is not None:
                     rhs = _RHSValueCompiler(self.state, emitter, mode="curr")
@@ -563,6 +581,11 @@ class _FragmentCompiler:
                     memory_index = self.state.get_memory(fragment._data)
                     rhs = _RHSValueCompiler(self.state, emitter, mode="curr")
                     lhs = _LHSValueCompiler(self.state, emitter, rhs=rhs)
+
+                    if async_reset:
+                        emitter.append("if clocked:")
+                        emitter._level += 1
+                        emitter.append("pass")
 
                     write_vals = {}
 
@@ -600,6 +623,9 @@ class _FragmentCompiler:
 
                             lhs(port._data)(data)
 
+                    if async_reset:
+                        emitter._level -= 1
+
             for (signal, mask) in lhs_masks.masks():
                 if signal.shape().signed and (mask & 1 << (len(signal) - 1)):
                     mask |= -1 << len(signal)
@@ -619,6 +645,7 @@ class _FragmentCompiler:
 
             exec_locals = {
                 "slots": self.state.slots,
+                "process": domain_process,
                 **_ValueCompiler.helpers,
                 **_StatementCompiler.helpers,
             }
